@@ -12,7 +12,7 @@ from ..core import Sub
 PROP = {
     "id": "C06",
     "level": "exploration",
-    "technique": "differential testing against an independent struct-only reference codec (reftdf): library encode == reference encode byte for byte; library decode of reference-encoded bytes (canonical and non-canonical run tables, every don't-care filler) == reference decode; header/entries both directions incl. the reference's own type-code names; BTS capture vs golden digests",
+    "technique": "differential testing against an independent struct-only reference codec (reftdf): library encode == reference encode byte for byte; library decode of reference-encoded bytes (canonical and non-canonical run tables, every don't-care filler) == reference decode; header/entries both directions incl. the reference's own type-code names; BTS capture vs golden digests; enumerated: counts on 2^k boundaries; table entries as the container writes them for block dates said in six time zones",
     "level_text": ("Exploration by differential testing: an independent layout-driven encoder/decoder (no numpy, no basictdf import), "
                    "validated against the BTS-recorded capture and pinned by golden digests, is the oracle for generated blocks of all "
                    "nine types, generated header/entry field values and the capture itself. Detects changes made consistently on the "
